@@ -31,7 +31,7 @@ RULE = ('cases = histories: (target operator, nrows, buffersize, cache, source f
 ASSUMPTIONS = ['reference counting plus gc.collect() reaches quiescence', 'the harness drops exception objects and tracebacks before the quiescence check']
 TARGETS = ['sort', 'join', 'complement', 'distinct', 'aggregate', 'pivot', 'mergesort', 'fromdicts']
 REQUIRED = (['target:' + t for t in TARGETS] + ['files-created', 'files-removed', 'iterator-outlived-view', 'abandoned-mid-iteration',
-            'source-failed-midway', 'chunk-write-failed-midway', 'complete-pass-after-a-failed-pass', 'pass-from-file-cache', 'cache-cleared-under-live-iterator', 'three-iterators', 'view-released-first', 'cache-off', 'quiescent-points-checked', 'descending-sort', 'fromdicts:explicit-header', 'fromdicts:rows-with-a-shared-cell-object', 'table-with-an-empty-row'])
+            'source-failed-midway', 'chunk-write-failed-midway', 'complete-pass-after-a-failed-pass', 'pass-from-file-cache', 'cache-cleared-under-live-iterator', 'three-iterators', 'view-released-first', 'cache-off', 'quiescent-points-checked', 'descending-sort', 'fromdicts:explicit-header', 'fromdicts:rows-with-a-shared-cell-object', 'table-with-an-empty-row', 'whole-row-sort-of-mixed-type-rows'])
 EXHAUSTIVE = {'quick': False, 'thorough': False}   # the enumerated families are complete within their bounds, but a seeded random family is judged too
 
 _audit = None
@@ -168,6 +168,18 @@ def cases(ctx):
                     for at in sorted({0, n // 2, n}):
                         yield {'target': 'sort', 'n': n, 'buffersize': bs, 'cache': cache, 'fail': None, 'failpass': None, 'reverse': rev,
                                'emptyrow': at, 'steps': _histories(2, (n + 4, n + 4), 'seq', 'iters-first')}
+    # whole-row sorts (key=None) of rows with None, text and numbers in one column and rows longer than the header: the passes served
+    # from chunk files order them exactly as the first pass did
+    for n in range(2, maxn + 3):
+        for bs in range(1, n + 1):
+            for cache in (True, False):
+                for rev in (False, True):
+                    for release in ('iters-first', 'view-first'):
+                        c = {'target': 'sort', 'n': n, 'buffersize': bs, 'cache': cache, 'fail': None, 'failpass': None, 'lexical': True, 'mixed': True,
+                             'steps': _histories(3, (n + 4, n + 4, n + 4), 'seq', release)}
+                        if rev:
+                            c['reverse'] = True
+                        yield c
     # a chunk *write* that fails part-way: a cell that cannot be pickled sits at row `bad`; whatever was created must be gone
     # once everything is released
     for tgt in ('sort', 'distinct', 'mergesort', 'aggregate'):
@@ -256,8 +268,12 @@ def cases(ctx):
 
 # ---------------------------------------------------------------------------
 
-def _source_rows(n):
+def _source_rows(n, mixed=False):
     keys = [3, 1, 2, 1, 3, 2, 1]
+    if mixed:
+        # None, text and numbers in the key column, and a row longer than the header: what a whole-row (key=None) sort has to order
+        keys = [3, None, 'b', 1, 3, None, 2]
+        return [['k', 'v', 'id']] + [[keys[i % len(keys)], 'v%d' % (i % 2), 'r%d' % i] + (['extra', i % 2] if i % 3 == 2 else []) for i in range(n)]
     return [['k', 'v', 'id']] + [[keys[i % len(keys)], 'v%d' % (i % 2), 'r%d' % i] for i in range(n)]
 
 
@@ -267,6 +283,8 @@ def _build(case, rows, fail, failpass, kw):
     src = probes.FailingSource(rows, fail_at=fail, only_pass=failpass) if fail is not None else [list(r) for r in rows]
     other = [['k', 'w'], [1, 'x'], [2, 'y'], [2, 'z'], [4, 'q']]
     rev = {'reverse': True} if case.get('reverse') else {}
+    if tgt == 'sort' and case.get('lexical'):
+        return petl.sort(src, **rev, **kw)        # key=None: ordered by the whole row
     if tgt == 'sort':
         return petl.sort(src, 'k', **rev, **kw)
     if tgt == 'join':
@@ -295,7 +313,9 @@ def _dictgen(rows, fail):
 def judge(case, ctx):
     tgt, n = case['target'], case['n']
     ctx.op('target:' + tgt)
-    rows = _source_rows(n)
+    rows = _source_rows(n, mixed=bool(case.get('mixed')))
+    if case.get('lexical'):
+        ctx.seen('whole-row-sort-of-mixed-type-rows')
     if case.get('emptyrow') is not None:
         rows.insert(1 + case['emptyrow'], [])
         ctx.seen('table-with-an-empty-row')
